@@ -105,10 +105,14 @@ def rule_lock(model):
                   ctx=cook)
     # readers test the flag, not the blocks
     call = model.func('DT_String', 'String.__call__')
-    tests = [n for n in own_nodes(call.node) if isinstance(n, ast.Call)
-             and isinstance(n.func, ast.Name) and n.func.id == 'hasattr'
-             and len(n.args) == 2 and isinstance(n.args[1], ast.Constant)
-             and n.args[1].value in (BLOCKS, COOKED)]
+    S = model.cls('DT_String', 'String')
+    tests = []
+    for mfi in S.methods.values():
+        tests += [n for n in own_nodes(mfi.node) if isinstance(n, ast.Call)
+                  and isinstance(n.func, ast.Name) and n.func.id == 'hasattr'
+                  and len(n.args) == 2
+                  and isinstance(n.args[1], ast.Constant)
+                  and n.args[1].value in (BLOCKS, COOKED)]
     for t in tests:
         r.instance(call.where, t, 'reader test')
         if t.args[1].value != COOKED:
